@@ -55,6 +55,12 @@ def gen_case(rng, tier):
                 names.append(f'{stem}.log.{n}.gz')
             else:
                 names += [f'{stem}.log.{n}', f'{stem}.log.{n}.gz']       # a tie
+        if rng.random() < 0.25:
+            # un-numbered / oddly suffixed copies of the SAME log: they share the stem's depth
+            # budget but sort after every numbered copy
+            names += [stem + sfx for sfx in rng.sample(
+                ['.log.gz', '.log.g', '.log.old', '.log.tar.gz', '.log.1.bak', '.log.02',
+                 '.log.bak.1'], rng.choice([1, 2]))]
     names += rng.sample(PLAIN, rng.choice([0, 1, 2, 3]))
     if rng.random() < 0.1:
         names += rng.sample(ODD, rng.choice([1, 2]))
@@ -231,9 +237,30 @@ def spec_check(case, impl):
                 return f"registering the file {r['path']} gives files {got}"
             continue
         ents = r['entries']
-        if not all(e['wf'] for e in ents):
-            continue                                  # outside the stated classes
         files = [e for e in ents if e['isfile']]
+        if not all(e['wf'] for e in ents):
+            # names outside the stated classes are present (un-numbered or oddly suffixed
+            # copies): what the property still says about the NUMBERED copies of a log - they
+            # are kept lowest number first, and nothing un-numbered displaces one of them
+            if len(set(got)) != len(got) or not set(got) <= {e['path'] for e in files}:
+                return f"{r['kind']} {r['path']}: lists {got}, not a duplicate-free subset of the files"
+            for s in {e['stem'] for e in files if e['cls'] == 'rotated'}:
+                R = [e for e in files if e['cls'] == 'rotated' and e['stem'] == s]
+                N = [e for e in R if e['wf'] and e['key'] < 100000]
+                KN = [e for e in N if e['path'] in got]
+                DN = [e for e in N if e['path'] not in got]
+                KU = [e for e in R if e not in N and e['path'] in got]
+                if len(KN) + len(KU) > depth:
+                    return (f"{r['kind']} {r['path']}: {len(KN) + len(KU)} copies of {s}.log kept, "
+                            f"depth is {depth}")
+                if KN and DN and max(e['key'] for e in KN) > min(e['key'] for e in DN):
+                    return (f"{r['kind']} {r['path']}: kept {sorted(e['path'] for e in KN)} but "
+                            f"dropped the lower-numbered {sorted(e['path'] for e in DN)}")
+                if DN and KU:
+                    return (f"{r['kind']} {r['path']}: the un-numbered {sorted(e['path'] for e in KU)} "
+                            f"kept while the numbered {sorted(e['path'] for e in DN)} was dropped "
+                            f"(depth {depth})")
+            continue
         if len(set(got)) != len(got):
             return f"{r['kind']} {r['path']}: a file is listed twice: {got}"
         known = {e['path'] for e in files}
